@@ -215,6 +215,13 @@ func (r *SparseInt64Matrix) MdotM(a, b ConstMatrix) Matrix {
      r.storageLocation() == b.storageLocation() {
     panic("result and argument must be different matrices")
   }
+  // products are accumulated in r
+  for it := r.Iterator(); it.Ok(); it.Next() {
+    it.Get().Reset()
+  }
+  if m == 0 {
+    return r
+  }
   t1 := NullScalar(r.ElementType())
   for it := a.ConstIterator(); it.Ok(); it.Next() {
     i, j := it.Index()
